@@ -17,7 +17,7 @@
    implementation. *)
 From Coq Require Import String.
 From PX.Lib Require Import Base PyStr.
-From PX.Model Require Import Path Segment Context.
+From PX.Model Require Import Path Segment MapLoad MapTree Walker Context.
 From PX.Spec Require Import C10_spec.
 From PX.Proofs Require Import C10_tree.
 
